@@ -207,7 +207,7 @@ VP_EXHAUSTIVE (floor_ceil_trunc_f64_grid, 1 << 20, 1 << 20, "doubles n +- k ulps
 VP_LABELS (floor_ceil_trunc_f64_grid, C17_FCT_LABELS)
 VP_REQUIRE_LABELS (floor_ceil_trunc_f64_grid, "negative_fraction", "positive_fraction", "integer_valued", "adjacent_to_integer", "floor_is_INT_MIN")
 
-VP_RANDOM (floor_ceil_trunc_f64_random, 2000000, 100000000, "random doubles with |x| < 2^31: exponent uniform in [-1074,30] or in [-2,30]; significand random / few leading bits / all ones / integer plus tiny fraction; non-trivial = fractional part present")
+VP_RANDOM (floor_ceil_trunc_f64_random, 2000000, 100000000, "random doubles with |x| < 2^31: exponent uniform in [-1074,30] or in [-2,30]; significand random / few leading bits / all ones / integer plus 0..3 ulps of fraction; ceil skipped where its value 2^31 is not an int; floor of a non-integer below -(2^31-1) keyed separately (child process in the sanitizer binary); non-trivial = fractional part present")
 {
     vp::Src& s = c.s;
     int      e = s.coin () ? (int) s.range (-2, 30) : (int) s.range (-1074, 30);
